@@ -34,6 +34,7 @@
 namespace dyn {
 
 type_id g_node_static_id[kNodes] = {2, 3, 4, 5};
+int g_node_cls[kNodes] = {0, 0, 0, 0};
 type_id g_deferred_id[64];
 Recorded g_rec;
 std::vector<RawRead> g_reads;
@@ -138,6 +139,8 @@ struct Exec {
     std::vector<std::map<int, std::vector<int>>> mvp;     // per slot: m -> vp
     std::vector<std::map<int, std::set<int>>> mdefs;      // per slot: m -> defs
     std::vector<bool> fresh;                              // per slot: successful update, no catalog change since
+    std::vector<int> epoch;                               // per slot: number of successful updates
+    std::map<std::pair<int, int>, int> hepoch;            // (slot, handle) -> epoch of creation
 };
 static Exec* g_exec = nullptr;
 
@@ -207,7 +210,13 @@ static std::string call_fields(IRunner* r, const CallResult& cr) {
              ",\"ty\":" + types_json(r, cr.types) + ",\"then\":\"thrown\"";
     } else if (cr.o == -3) {
         s += ",\"recv\":[],\"st\":0,\"ar\":0,\"ty\":[],\"then\":\"unknown\",\"c\":" +
-             std::to_string(r->class_of_id(cr.unknown_id));
+             std::to_string(r->class_of_id(cr.unknown_id)) + ",\"chk\":" + (r->checked() ? "true" : "false") + ",\"reads\":[";
+        bool first = true;
+        for (auto& x : cr.reads) {
+            s += std::string(first ? "[\"" : ",[\"") + std::string(1, x.first) + "\"," + std::to_string(x.second) + "]";
+            first = false;
+        }
+        s += "]";
     } else {
         s += ",\"recv\":[],\"st\":0,\"ar\":0,\"ty\":[],\"then\":\"weird\"";
     }
@@ -222,6 +231,7 @@ static void run_ops(const Script& sc, const std::vector<std::string>& binding) {
     ex.mvp.resize(np);
     ex.mdefs.resize(np);
     ex.fresh.assign(np, false);
+    ex.epoch.assign(np, 0);
     for (auto& b : binding) {
         IRunner* r = make_runner(b);
         if (!r) {
@@ -260,13 +270,14 @@ static void run_ops(const Script& sc, const std::vector<std::string>& binding) {
         IRunner* r = ex.runners[op.p];
         std::string P = "\"p\":" + std::to_string(op.p);
         const bool observing = op.k == "T" || op.k == "CT" || op.k == "R" || op.k == "C" || op.k == "X" ||
-                               op.k == "L" || op.k == "RT" || op.k == "A";
+                               op.k == "L" || op.k == "RT" || op.k == "A" || op.k == "VN" || op.k == "VD" ||
+                               op.k == "VG" || op.k == "VC";
         if (observing && !ex.fresh[op.p]) {
             // legal use only: nothing is observed between a catalog change (or a failed update) and the next update
             emit("{\"e\":\"skip\"," + P + "}");
             continue;
         }
-        if (!observing && op.k != "u" && op.k != "h") {
+        if (!observing && op.k != "u" && op.k != "h" && op.k != "N" && op.k != "VX") {
             ex.fresh[op.p] = false;
         }
         if (op.k == "c") {
@@ -317,6 +328,7 @@ static void run_ops(const Script& sc, const std::vector<std::string>& binding) {
             UpdateResult ur = r->update();
             std::string s = "{\"e\":\"update\"," + P;
             ex.fresh[op.p] = ur.res == UpdateResult::ok;
+            if (ur.res == UpdateResult::ok) ++ex.epoch[op.p];
             if (ur.res == UpdateResult::ok) {
                 s += ",\"res\":\"ok\",\"c\":0,\"rep\":{\"cells\":" + std::to_string(ur.rep.cells) +
                      ",\"concrete_cells\":" + std::to_string(ur.rep.concrete_cells) +
@@ -387,6 +399,71 @@ static void run_ops(const Script& sc, const std::vector<std::string>& binding) {
                 emit(std::string("{\"e\":\"resolve\",") + P + ",\"m\":" + std::to_string(m) + ",\"t\":" +
                      jlist(t) + ",\"o\":" + std::to_string(cr.o) + "}");
             }
+        } else if (op.k == "N") {
+            bool ok = r->map_node(op.a[0], op.a[1]);
+            emit("{\"e\":\"node\"," + P + ",\"k\":" + std::to_string(op.a[0]) + ",\"c\":" + std::to_string(op.a[1]) +
+                 ",\"ok\":" + (ok ? "true" : "false") + "}");
+        } else if (op.k == "VN" || op.k == "VD") {
+            // VN h k c  (route in op.s) | VD h from k (route in op.s)
+            IRunner::VpResult vr;
+            int h = op.a[0];
+            std::string ev;
+            if (op.k == "VN") {
+                vr = r->vp_make(h, op.a[1], op.s, op.a[2]);
+                ev = "{\"e\":\"vptr\"," + P + ",\"h\":" + std::to_string(h) + ",\"k\":" + std::to_string(op.a[1]) +
+                     ",\"route\":\"" + op.s + "\",\"dyn\":" + std::to_string(op.a[2]);
+            } else {
+                // a stale direct handle must not be touched
+                auto he = ex.hepoch.find({op.p, op.a[1]});
+                if (he == ex.hepoch.end() || (!r->indirect() && he->second != ex.epoch[op.p])) {
+                    emit("{\"e\":\"vskip\"," + P + ",\"hs\":[" + std::to_string(op.a[1]) + "]}");
+                    continue;
+                }
+                vr = r->vp_derive(h, op.a[1], op.s, op.a[2]);
+                ev = "{\"e\":\"vderive\"," + P + ",\"h\":" + std::to_string(h) + ",\"from\":" + std::to_string(op.a[1]) +
+                     ",\"k\":" + std::to_string(op.a[2]) + ",\"route\":\"" + op.s + "\",\"dyn\":" + std::to_string(vr.dyn);
+            }
+            const char* res = vr.ok ? "ok" : vr.err == 1 ? "unknown" : vr.err == 2 ? "mtable" : vr.err == 9 ? "unsupported" : "weird";
+            if (vr.ok) {
+                ex.hepoch[{op.p, h}] = op.k == "VN" ? ex.epoch[op.p] : ex.hepoch[{op.p, op.a[1]}];
+            }
+            emit(ev + ",\"oid\":" + std::to_string(vr.oid) + ",\"ind\":" + (r->indirect() ? "true" : "false") +
+                 ",\"chk\":" + (r->checked() ? "true" : "false") + ",\"res\":\"" + res + "\",\"c\":" +
+                 std::to_string(vr.err_cls) + "}");
+        } else if (op.k == "VX") {
+            if (!ex.hepoch.count({op.p, op.a[0]})) {
+                emit("{\"e\":\"vskip\"," + P + ",\"hs\":[" + std::to_string(op.a[0]) + "]}");
+                continue;
+            }
+            r->vp_drop(op.a[0]);
+            ex.hepoch.erase({op.p, op.a[0]});
+            emit("{\"e\":\"vdrop\"," + P + ",\"h\":" + std::to_string(op.a[0]) + "}");
+        } else if (op.k == "VG") {
+            auto he = ex.hepoch.find({op.p, op.a[0]});
+            if (he == ex.hepoch.end()) {
+                emit("{\"e\":\"vskip\"," + P + ",\"hs\":[" + std::to_string(op.a[0]) + "]}");
+                continue;
+            }
+            int ids[3] = {-1, -1, -1};
+            r->vp_ids(op.a[0], ids);
+            emit("{\"e\":\"vget\"," + P + ",\"h\":" + std::to_string(op.a[0]) + ",\"oids\":[" + std::to_string(ids[0]) + "," +
+                 std::to_string(ids[1]) + "," + std::to_string(ids[2]) + "]}");
+        } else if (op.k == "VC") {
+            int m = op.a[0], n = op.a[1];
+            std::vector<int> hs(op.a.begin() + 2, op.a.begin() + 2 + n);
+            bool stale = false;
+            for (int h : hs) {
+                auto he = ex.hepoch.find({op.p, h});
+                if (he == ex.hepoch.end() || (!r->indirect() && he->second != ex.epoch[op.p])) stale = true;
+            }
+            if (stale) {
+                // a direct virtual_ptr is only valid until the next update: not used
+                emit("{\"e\":\"vskip\"," + P + ",\"hs\":" + jlist(hs) + "}");
+                continue;
+            }
+            CallResult cr = r->vp_call(m, hs);
+            emit("{\"e\":\"vcall\"," + P + ",\"m\":" + std::to_string(m) + ",\"hs\":" + jlist(hs) + ",\"o\":" +
+                 std::to_string(cr.o) + ",\"recv\":" + jlist(cr.recv_oid) + "}");
         } else if (op.k == "L") {
             emit("{\"e\":\"layout\"," + P + "," + r->layout_json() + "}");
         } else if (op.k == "RT") {
@@ -455,7 +532,7 @@ static bool parse_scripts(std::istream& in, std::vector<Script>& out) {
                 int m;
                 ss >> m >> op.s;
                 op.a.push_back(m);
-            } else if (k == "h") {
+            } else if (k == "h" || k == "VN" || k == "VD") {
                 ss >> op.s;
             }
             int v;
